@@ -20,14 +20,18 @@ type SolverCfg struct {
 	Cmd  []string
 }
 
+// Solver time limits are CPU seconds (prlimit), so verdicts do not depend on machine load; the wall-clock cap is
+// a generous multiple that only guards against a wedged process.
 func solvers(timeoutS int, seed int) []SolverCfg {
-	ms := fmt.Sprint(timeoutS * 1000)
+	lim := fmt.Sprintf("--cpu=%d", timeoutS)
 	return []SolverCfg{
-		{"z3-new", []string{"z3-new", "-T:" + fmt.Sprint(timeoutS), "smt.random_seed=" + fmt.Sprint(seed), "-smt2"}},
-		{"z3", []string{"z3", "-T:" + fmt.Sprint(timeoutS), "smt.random_seed=" + fmt.Sprint(seed), "-smt2"}},
-		{"cvc5", []string{"cvc5", "--tlimit=" + ms, "--seed=" + fmt.Sprint(seed), "--lang=smt2"}},
+		{"z3-new", []string{"prlimit", lim, "--", "z3-new", "smt.random_seed=" + fmt.Sprint(seed), "-smt2"}},
+		{"z3", []string{"prlimit", lim, "--", "z3", "smt.random_seed=" + fmt.Sprint(seed), "-smt2"}},
+		{"cvc5", []string{"prlimit", lim, "--", "cvc5", "--seed=" + fmt.Sprint(seed), "--lang=smt2"}},
 	}
 }
+
+const wallFactor = 30
 
 func (g *Gen) smtText(o *Obligation, wantModel bool) string {
 	var b strings.Builder
@@ -66,6 +70,9 @@ func runSolver(ctx context.Context, sc SolverCfg, file string) solveResult {
 	cmd.Stderr = &out
 	cmd.Run()
 	ms := time.Since(t0).Milliseconds()
+	if ps := cmd.ProcessState; ps != nil {
+		ms = (ps.UserTime() + ps.SystemTime()).Milliseconds() // CPU time: independent of machine load
+	}
 	first := strings.TrimSpace(strings.SplitN(out.String(), "\n", 2)[0])
 	r := solveResult{solver: sc.Name, ms: ms, out: out.String()}
 	switch first {
@@ -74,8 +81,8 @@ func runSolver(ctx context.Context, sc SolverCfg, file string) solveResult {
 	case "timeout":
 		r.res = "timeout"
 	default:
-		if ctx.Err() != nil {
-			r.res = "timeout"
+		if ctx.Err() != nil || first == "" {
+			r.res = "timeout" // killed by the CPU limit or the wall cap
 		} else if strings.Contains(out.String(), "timeout") || strings.Contains(out.String(), "interrupted") {
 			r.res = "timeout"
 		} else {
@@ -87,7 +94,7 @@ func runSolver(ctx context.Context, sc SolverCfg, file string) solveResult {
 
 // race runs the solvers concurrently; the first definite answer (sat/unsat) wins.
 func race(file string, timeoutS, seed int, only string) solveResult {
-	ctx, cancel := context.WithTimeout(context.Background(), time.Duration(timeoutS+2)*time.Second)
+	ctx, cancel := context.WithTimeout(context.Background(), time.Duration(timeoutS*wallFactor)*time.Second)
 	defer cancel()
 	scs := solvers(timeoutS, seed)
 	ch := make(chan solveResult, len(scs))
@@ -167,7 +174,7 @@ func modelFor(g *Gen, o *Obligation, workDir string, timeoutS int) string {
 	txt := g.smtText(o, true) + "(get-model)\n"
 	f := filepath.Join(workDir, "model_"+filepath.Base(o.File))
 	os.WriteFile(f, []byte(txt), 0o644)
-	ctx, cancel := context.WithTimeout(context.Background(), time.Duration(timeoutS+2)*time.Second)
+	ctx, cancel := context.WithTimeout(context.Background(), time.Duration(timeoutS*wallFactor)*time.Second)
 	defer cancel()
 	r := runSolver(ctx, solvers(timeoutS, 0)[0], f)
 	return r.out
